@@ -100,6 +100,15 @@ func (st *State) intrinsic(fn *ssa.Function, args []Value) (Value, bool) {
 		}
 	case "math/rand":
 		return st.randCall(fn, name, args)
+	case "sync":
+		// single-threaded interpretation: locks are no-ops
+		switch name {
+		case "Lock", "Unlock", "RLock", "RUnlock", "TryLock":
+			if name == "TryLock" {
+				return st.ts.True, true
+			}
+			return nil, true
+		}
 	}
 	if fn.Name() == "init" && fn.Pkg != nil && !st.e.inRepoPkg(fn.Pkg.Pkg.Path()) && fn.Signature.Recv() == nil {
 		return nil, true
@@ -230,6 +239,14 @@ func (st *State) vxCall(name string, args []Value, fn *ssa.Function) Value {
 		return nil
 	case "Freeze", "Thaw":
 		sl := args[0].(SliceV)
+		if name == "Thaw" && sl.len == 0 {
+			// release everything frozen so far
+			for _, o := range st.frozenObjs {
+				o.frozen = false
+			}
+			st.frozenObjs = nil
+			return nil
+		}
 		for i := 0; i < sl.len; i++ {
 			st.freeze(sl.obj.cells[sl.off+i], name == "Freeze", 0)
 		}
@@ -351,6 +368,9 @@ func (st *State) freeze(v Value, on bool, depth int) {
 		if x.obj != nil {
 			if x.obj.frozen != on {
 				x.obj.frozen = on
+				if on {
+					st.frozenObjs = append(st.frozenObjs, x.obj)
+				}
 				for i := 0; i < x.len*x.esz; i++ {
 					st.freeze(x.obj.cells[x.off+i], on, depth+1)
 				}
@@ -359,6 +379,9 @@ func (st *State) freeze(v Value, on bool, depth int) {
 	case Ptr:
 		if x.obj != nil && x.obj.frozen != on {
 			x.obj.frozen = on
+			if on {
+				st.frozenObjs = append(st.frozenObjs, x.obj)
+			}
 			for _, c := range x.obj.cells {
 				st.freeze(c, on, depth+1)
 			}
